@@ -42,11 +42,11 @@ class Relationship(_RelationshipObject):
         target_ref=None, **kwargs
     ):
         # Allow (source_ref, relationship_type, target_ref) as positional args.
-        if source_ref and not kwargs.get('source_ref'):
+        if source_ref is not None and kwargs.get('source_ref') is None:
             kwargs['source_ref'] = source_ref
-        if relationship_type and not kwargs.get('relationship_type'):
+        if relationship_type is not None and kwargs.get('relationship_type') is None:
             kwargs['relationship_type'] = relationship_type
-        if target_ref and not kwargs.get('target_ref'):
+        if target_ref is not None and kwargs.get('target_ref') is None:
             kwargs['target_ref'] = target_ref
 
         super(Relationship, self).__init__(**kwargs)
@@ -81,7 +81,7 @@ class Sighting(_RelationshipObject):
     # Explicitly define the first kwargs to make readable Sighting declarations.
     def __init__(self, sighting_of_ref=None, **kwargs):
         # Allow sighting_of_ref as a positional arg.
-        if sighting_of_ref and not kwargs.get('sighting_of_ref'):
+        if sighting_of_ref is not None and kwargs.get('sighting_of_ref') is None:
             kwargs['sighting_of_ref'] = sighting_of_ref
 
         super(Sighting, self).__init__(**kwargs)
